@@ -17,7 +17,8 @@
    Deviation reproduced on purpose: parseRelationalExpression recurses on its
    RIGHT operand (Right: p.parseRelationalExpression()), so a<b<c is read as
    a<(b<c).  (The middle operand of ?: is parsed with allowIn = true, ES5 11.12,
-   since /repo 18fccf6.)
+   since /repo 18fccf6; the right operand of a relational operator inherits the
+   no-in restriction, ES5 11.8 RelationalExpressionNoIn, since /repo 24f7b9d.)
 
    One refactoring: Go's AllowCall loop {. [ (} after a primary/new head is
    written as "member level first (loop {. [}), then loop {. [ (}".  The two are
@@ -139,8 +140,8 @@ Definition step (self : nat -> bool -> parser) (k : nat) (noin : bool) (ts : lis
       match self 10 noin ts with
       | Some (l, (nl, TOp o) :: r) =>
           if Nat.eqb (lvl o) 9 && negb (noin && is_in o) then
-            (* allowIn is forced to true before the recursive call *)
-            match self 9 false r with Some (e, r') => Some (EBin o l e, r') | None => None end
+            (* the right operand inherits the no-in restriction (since /repo 24f7b9d) *)
+            match self 9 noin r with Some (e, r') => Some (EBin o l e, r') | None => None end
           else Some (l, (nl, TOp o) :: r)
       | x => x
       end
